@@ -182,16 +182,84 @@ theorem inv2_plain {s : State} (hi : Inv2 s) (id : Nat) (f : Op → Op)
     obtain ⟨h1, h2, h3, h4, h5, h6, h7, h8, h9, h10⟩ := hf o
     exact ok2_same ok h1 h2 h3 h4 h5 h6 h7 h8 h9 h10)
 
-theorem inv2_iourCancel {s : State} (hi : Inv2 s) (id : Nat) : Inv2 (iourCancel s id) := by
+theorem inv2_kPostStep {s s' : State} {id : Nat} {more : Bool} {r : Res} (hi : Inv2 s)
+    (h : kPostStep s id more r = some s') : Inv2 s' := by
+  unfold kPostStep at h
+  split at h
+  · rename_i o ho
+    split at h
+    · rename_i hg
+      split at h
+      · obtain rfl := Option.some.inj h
+        refine inv2_modAt hi id _ rfl rfl ?_
+        intro o' ho' ok
+        rw [ho] at ho'; obtain rfl := Option.some.inj ho'
+        obtain ⟨a1, a2, a3, a4, a5, a6, a7, a8, a9, a10⟩ := ok
+        have mono : ∀ x, Genuine o x →
+            Genuine ({ o with pendMore := o.pendMore ++ [r], produced := o.produced ++ [r] }) x :=
+          genuine_mono (fun x hx => by simp [hx])
+        refine ⟨fun x hx => mono x (a1 x hx), fun x hx => mono x (a2 x hx), fun x hx => mono x (a3 x hx), ?_,
+          fun x hx => mono x (a5 x hx), a6, a7, a8, a9, a10⟩
+        intro x hx
+        rcases List.mem_append.mp hx with h1 | h1
+        · exact mono x (a4 x h1)
+        · simp at h1; subst h1; exact Or.inl (by simp)
+      · obtain rfl := Option.some.inj h
+        refine inv2_modAt hi id _ rfl rfl ?_
+        intro o' ho' ok
+        rw [ho] at ho'; obtain rfl := Option.some.inj ho'
+        obtain ⟨a1, a2, a3, a4, a5, a6, a7, a8, a9, a10⟩ := ok
+        have hk : o.kstat ≠ .none := by rw [hg.2.2.1]; simp
+        have mono : ∀ x, Genuine o x →
+            Genuine ({ o with pendFinal := some r, kstat := .done, produced := o.produced ++ [r] }) x :=
+          genuine_mono (fun x hx => by simp [hx])
+        refine ⟨fun x hx => mono x (a1 x hx), fun x hx => mono x (a2 x hx), fun x hx => mono x (a3 x hx),
+          fun x hx => mono x (a4 x hx), ?_, fun _ => a6 hk, fun h1 _ => a7 h1 hk, fun h1 _ => a8 h1 hk,
+          fun _ => rfl, fun _ => rfl⟩
+        intro x hx
+        simp only [Option.some.injEq] at hx
+        subst hx; exact Or.inl (by simp)
+    · cases h
+  · cases h
+
+theorem inv2_overflowDrain {s : State} (hi : Inv2 s) (posts : List (Nat × Bool × Res)) :
+    Inv2 (overflowDrain s posts) := by
+  unfold overflowDrain drainAll
+  have h1 : Inv2 (submitAll s) := inv2_map hi _ rfl rfl (fun o ok => ok2_submit ok)
+  have h2 : ∀ (posts : List (Nat × Bool × Res)) (t : State), Inv2 t →
+      Inv2 (posts.foldl (fun s p => (kPostStep s p.1 p.2.1 p.2.2).getD s) t) := by
+    intro posts
+    induction posts with
+    | nil => intro t ht; exact ht
+    | cons p ps ih =>
+      intro t ht
+      simp only [List.foldl_cons]
+      apply ih
+      cases hk : kPostStep t p.1 p.2.1 p.2.2 with
+      | none => simpa using ht
+      | some t' => simp only [Option.getD_some]; exact inv2_kPostStep ht hk
+  exact inv2_map (h2 posts _ h1) _ rfl rfl (fun o ok => ok2_drainCq ok)
+
+theorem inv2_queueCancel {s : State} (hi : Inv2 s) (id : Nat) : Inv2 (queueCancel s id) :=
+  inv2_modAt hi id _ rfl rfl (fun o _ ok => ok2_same ok rfl rfl rfl rfl rfl rfl rfl rfl rfl rfl)
+
+theorem inv2_iourCancel {c : Cfg} {s : State} (hi : Inv2 s) (id : Nat) (posts : List (Nat × Bool × Res)) :
+    Inv2 (iourCancel c s id posts) := by
   unfold iourCancel
   split
-  · exact inv2_modAt hi id _ rfl rfl (fun o _ ok => ok2_same ok rfl rfl rfl rfl rfl rfl rfl rfl rfl rfl)
-  · exact inv2_modAt hi id _ rfl rfl (fun o _ ok => ok2_same ok rfl rfl rfl rfl rfl rfl rfl rfl rfl rfl)
+  · split
+    · exact inv2_queueCancel hi id
+    · exact inv2_queueCancel (inv2_overflowDrain hi posts) id
+  · unfold iourCancelUnfixed
+    split
+    · exact inv2_queueCancel hi id
+    · exact inv2_modAt hi id _ rfl rfl (fun o _ ok => ok2_same ok rfl rfl rfl rfl rfl rfl rfl rfl rfl rfl)
 
-theorem inv2_driverCancel {s : State} (hi : Inv2 s) (id : Nat) (o : Op) : Inv2 (driverCancel s id o) := by
+theorem inv2_driverCancel {c : Cfg} {s : State} (hi : Inv2 s) (id : Nat) (o : Op) (posts : List (Nat × Bool × Res)) :
+    Inv2 (driverCancel c s id o posts) := by
   unfold driverCancel
   split
-  · exact inv2_iourCancel hi id
+  · exact inv2_iourCancel hi id posts
   · rename_i hd
     unfold pollCancel
     split
@@ -201,21 +269,16 @@ theorem inv2_driverCancel {s : State} (hi : Inv2 s) (id : Nat) (o : Op) : Inv2 (
       rw [hd] at ok ⊢
       exact ok2_pollCancel ok _
 
-theorem driverCancel_drv (s : State) (id : Nat) (o : Op) : (driverCancel s id o).drv = s.drv := by
-  unfold driverCancel iourCancel pollCancel
-  split
-  · split <;> rfl
-  · split <;> rfl
-
-theorem inv2_cancelIssue {s : State} (hi : Inv2 s) (id : Nat) (o : Op) : Inv2 (cancelIssue s id o) := by
+theorem inv2_cancelIssue {c : Cfg} {s : State} (hi : Inv2 s) (id : Nat) (o : Op) (posts : List (Nat × Bool × Res)) :
+    Inv2 (cancelIssue c s id o posts) := by
   unfold cancelIssue
   have h1 : Inv2 { s with ops := modAt (fun o => { o with cancelled := true }) s.ops id } :=
     inv2_modAt hi id _ rfl rfl (fun o _ ok => ok2_same ok rfl rfl rfl rfl rfl rfl rfl rfl rfl rfl)
-  have h2 := inv2_driverCancel h1 id o
+  have h2 := inv2_driverCancel (c := c) h1 id o posts
   exact inv2_modAt h2 id _ rfl rfl (fun o _ ok => ok2_same ok rfl rfl rfl rfl rfl rfl rfl rfl rfl rfl)
 
-theorem inv2_cancelKey {s : State} (hi : Inv2 s) {id : Nat} {o : Op} (ho : s.ops[id]? = some o) :
-    Inv2 (cancelKey s id o) := by
+theorem inv2_cancelKey {c : Cfg} {s : State} (hi : Inv2 s) {id : Nat} {o : Op} (ho : s.ops[id]? = some o)
+    (posts : List (Nat × Bool × Res)) : Inv2 (cancelKey c s id o posts) := by
   unfold cancelKey
   split
   · exact inv2_modAt hi id _ rfl rfl (fun o _ ok => ok2_same ok rfl rfl rfl rfl rfl rfl rfl rfl rfl rfl)
@@ -225,7 +288,7 @@ theorem inv2_cancelKey {s : State} (hi : Inv2 s) {id : Nat} {o : Op} (ho : s.ops
       intro o' ho' ok
       rw [ho] at ho'; obtain rfl := Option.some.inj ho'
       exact ok2_takeResult ok hq.2 true
-    · exact inv2_cancelIssue hi id o
+    · exact inv2_cancelIssue hi id o posts
 
 theorem inv2_clone {s : State} (hi : Inv2 s) (id : Nat) :
     Inv2 { s with ops := modAt (fun o => ({ o.cloneRef with user := o.user + 1 } : Op)) s.ops id } :=
@@ -333,21 +396,21 @@ theorem step_inv2 {c : Cfg} {s s' : State} {e : Event} (hi : Inv2 s) (h : step c
       subst hr
       exact Or.inl (by simp [Op.takeResult])
     · cases h
-  | userCancel id =>
+  | userCancel id posts =>
     simp only [step] at h
     split at h
     · rename_i o ho
       split at h
-      · obtain rfl := Option.some.inj h; exact inv2_cancelKey hi ho
+      · obtain rfl := Option.some.inj h; exact inv2_cancelKey hi ho posts
       · cases h
     · cases h
-  | cloneCancel id =>
+  | cloneCancel id posts =>
     simp only [step] at h
     split at h
     · rename_i o ho
       split at h
       · obtain rfl := Option.some.inj h
-        refine inv2_cancelKey (inv2_clone hi id) ?_
+        refine inv2_cancelKey (inv2_clone hi id) ?_ posts
         simp only [getElem?_modAt_self, ho, Option.map_some]
       · cases h
     · cases h
@@ -404,7 +467,7 @@ theorem step_inv2 {c : Cfg} {s s' : State} {e : Event} (hi : Inv2 s) (h : step c
         exact inv2_modAt hi id _ rfl rfl (fun o _ ok => ok2_same ok rfl rfl rfl rfl rfl rfl rfl rfl rfl rfl)
       · cases h
     · cases h
-  | tokenCancel id =>
+  | tokenCancel id posts =>
     simp only [step] at h
     split at h
     · rename_i o ho
@@ -416,7 +479,7 @@ theorem step_inv2 {c : Cfg} {s s' : State} {e : Event} (hi : Inv2 s) (h : step c
           split
           · exact inv2_modAt (inv2_clone hi id) id _ rfl rfl
               (fun o _ ok => ok2_same ok rfl rfl rfl rfl rfl rfl rfl rfl rfl rfl)
-          · exact inv2_cancelIssue (inv2_clone hi id) id _
+          · exact inv2_cancelIssue (inv2_clone hi id) id _ posts
       · cases h
     · cases h
   | pushNotifier =>
@@ -485,44 +548,7 @@ theorem step_inv2 {c : Cfg} {s s' : State} {e : Event} (hi : Inv2 s) (h : step c
         cases st <;> rfl
       · cases h
     · cases h
-  | kPost id more r =>
-    simp only [step] at h
-    split at h
-    · rename_i o ho
-      split at h
-      · rename_i hg
-        split at h
-        · obtain rfl := Option.some.inj h
-          refine inv2_modAt hi id _ rfl rfl ?_
-          intro o' ho' ok
-          rw [ho] at ho'; obtain rfl := Option.some.inj ho'
-          obtain ⟨a1, a2, a3, a4, a5, a6, a7, a8, a9, a10⟩ := ok
-          have mono : ∀ x, Genuine o x →
-              Genuine ({ o with pendMore := o.pendMore ++ [r], produced := o.produced ++ [r] }) x :=
-            genuine_mono (fun x hx => by simp [hx])
-          refine ⟨fun x hx => mono x (a1 x hx), fun x hx => mono x (a2 x hx), fun x hx => mono x (a3 x hx), ?_,
-            fun x hx => mono x (a5 x hx), a6, a7, a8, a9, a10⟩
-          intro x hx
-          rcases List.mem_append.mp hx with h1 | h1
-          · exact mono x (a4 x h1)
-          · simp at h1; subst h1; exact Or.inl (by simp)
-        · obtain rfl := Option.some.inj h
-          refine inv2_modAt hi id _ rfl rfl ?_
-          intro o' ho' ok
-          rw [ho] at ho'; obtain rfl := Option.some.inj ho'
-          obtain ⟨a1, a2, a3, a4, a5, a6, a7, a8, a9, a10⟩ := ok
-          have hk : o.kstat ≠ .none := by rw [hg.2.2.1]; simp
-          have mono : ∀ x, Genuine o x →
-              Genuine ({ o with pendFinal := some r, kstat := .done, produced := o.produced ++ [r] }) x :=
-            genuine_mono (fun x hx => by simp [hx])
-          refine ⟨fun x hx => mono x (a1 x hx), fun x hx => mono x (a2 x hx), fun x hx => mono x (a3 x hx),
-            fun x hx => mono x (a4 x hx), ?_, fun _ => a6 hk, fun h1 _ => a7 h1 hk, fun h1 _ => a8 h1 hk,
-            fun _ => rfl, fun _ => rfl⟩
-          intro x hx
-          simp only [Option.some.injEq] at hx
-          subst hx; exact Or.inl (by simp)
-      · cases h
-    · cases h
+  | kPost id more r => exact inv2_kPostStep hi h
   | poolDone id r =>
     simp only [step] at h
     split at h
